@@ -394,6 +394,8 @@ def getslice(E, obj, lo, hi, step):
     if kind_of(obj) == "bytes":
         if isinstance(obj, (bytes, bytearray)) and all(x is None or isinstance(x, int) for x in (lo, hi)):
             return bytes(obj[lo:hi])
+        if lo is None and hi is None:
+            return obj            # b[:] of an immutable byte string value is the same value
         zb = zbytes(obj)
         n = z3.Length(zb)
         a, b = clamp_bounds(E, lo, hi, n)
@@ -1319,8 +1321,13 @@ def _quant(E, n, forall):
             if terms:
                 pats.append(z3.MultiPattern(*terms) if len(terms) > 1 else terms[0])
     if pats:
-        q = z3.ForAll(bound, body, patterns=pats) if forall else z3.Exists(bound, body, patterns=pats)
-        return Sym(q, "bool")
+        try:
+            q = z3.ForAll(bound, body, patterns=pats) if forall else z3.Exists(bound, body, patterns=pats)
+            return Sym(q, "bool")
+        except z3.Z3Exception:
+            # the trigger term is not a legal pattern in the current state (e.g. it reads a map that was just updated
+            # with an if-then-else value): patterns are instantiation hints only, fall back to the solver's choice
+            pass
     q = z3.ForAll(bound, body) if forall else z3.Exists(bound, body)
     return Sym(q, "bool")
 
